@@ -268,7 +268,7 @@ def run(ctx):
             _TIER["thorough"] = wide
             ops = OPS_BY_TIER[wide]
             before = ctx.part.counters.get("transitions", 0)
-            r = explorer.bfs(ctx, make, apply, ops, canon, max_depth=depth)
+            r = explorer.bfs(ctx, make, apply, ops, canon, max_depth=depth, lookahead=4 if not wide else 3)
             r["transitions"] = ctx.part.counters.get("transitions", 0) - before
             r["operations"] = len(ops)
             extra.append({k: r[k] for k in ("states", "transitions", "fixpoint", "depth", "open_frontier", "operations")})
